@@ -55,6 +55,34 @@ def limited_replay(src, mem_gib=3, timeout=25, profile='release'):
     return dict(outcome='error', detail=o.get('error', '')[:160])
 
 
+# Replay route (no solver verdict): the pad length is counted in characters; a filler of multi-byte characters must be cut by characters
+# too.  Before the repair `padding.truncate(pad_len)` cut BYTES and panicked inside the native when pad_len fell inside a character.
+PAD_PROGRAMS = [
+    ("'a'.padStart(4, '\u00e9')", '\u00e9\u00e9\u00e9a'),
+    ("'a'.padEnd(4, '\u00e9')", 'a\u00e9\u00e9\u00e9'),
+    ("'ab'.padStart(5, '\u20acx')", '\u20acx\u20acab'),
+    ("'ab'.padEnd(4, '\U0001F600')", None),
+    ("'ab'.padStart(6, 'xyz')", 'xyzxab'),
+]
+
+
+def check_pad_fillers(rep):
+    for src, want in PAD_PROGRAMS:
+        for profile in ('dev', 'release'):
+            o = limited_replay(src, profile=profile)
+            rep.validated += 1
+            got = o['detail'].get('v') if o['outcome'] == 'value' and isinstance(o['detail'], dict) else None
+            ok = o['outcome'] == 'value' and (want is None or got == want)
+            rep.obligation('pad filler (replay, %s build): %s returns without panicking%s' % (profile, src, '' if want is None else ' and equals %r' % want),
+                           'unsat' if ok else 'sat', 'fixed program', 0.0)
+            if not ok:
+                key = 'C06/string_pad/multibyte-filler'
+                if not rep.seen(key):
+                    p = rep.write_replay('pad-filler', {'cmd': 'eval', 'src': src, 'profile': profile, 'observed': o, 'expected': want})
+                    rep.violation(key, '%s -> %s in the %s build (%s); expected %r' % (src, o['outcome'], profile, str(o['detail'])[:120], want), p)
+                break
+
+
 KF_INDEX_STORE = 'C06/JsObject::set_property/array-index-store-unbounded-resize'
 
 
@@ -216,6 +244,7 @@ def run(rep):
         rep.sample({'kernel': fn_name, 'non_error_paths': nret, 'verdict': 'size can exceed 2^31' if worst else 'bounded or refused'})
         rep.absorb(ex)
     check_index_store(rep, cross)
+    check_pad_fillers(rep)
     rep.cross = driver.cross_check(cross, 300, 'ALL', rep.tier, rep.seed)
     rep.extra['cross_checked_obligations'] = len(cross)
 
